@@ -165,3 +165,32 @@ def repo_fingerprint(repo=None):
         h.update(os.path.basename(p).encode())
         h.update(open(p, "rb").read())
     return h.hexdigest()[:16]
+
+
+def coq_hash():
+    h = hashlib.sha256()
+    for p in sorted(coq_sources()):
+        h.update(open(p, "rb").read())
+    return h.hexdigest()[:16]
+
+
+def coqchk(run_if_missing=False):
+    """Independent re-check of the compiled development (coqchk -silent -o), cached per source hash.
+    Returns dict(status=ok|failed|not-run, axioms=[...], seconds=...)."""
+    cache = os.path.join(VERIF, ".cache")
+    os.makedirs(cache, exist_ok=True)
+    f = os.path.join(cache, "coqchk-%s.json" % coq_hash())
+    if os.path.exists(f):
+        return json.load(open(f))
+    if not run_if_missing:
+        return {"status": "not-run"}
+    t0 = time.time()
+    r = run(["timeout", "7200", "coqchk", "-silent", "-o", "-Q", ".", "GB", "GB.Properties"], cwd=COQ)
+    out = r.stdout + r.stderr
+    axioms = []
+    m = re.search(r"\* Axioms:\s*(.*?)(?:\n\*|\Z)", out, flags=re.S)
+    if m:
+        axioms = [l.strip() for l in m.group(1).splitlines() if l.strip() and l.strip() != "<none>"]
+    res = {"status": "ok" if r.returncode == 0 else "failed", "axioms": axioms, "seconds": round(time.time() - t0, 1), "tail": out[-1500:]}
+    json.dump(res, open(f, "w"), indent=1)
+    return res
